@@ -28,7 +28,7 @@ def kinds():
     K = []
 
     def add(name, owner, req, res):
-        base = {"contact-sync-part": "contact-sync", "contact-sync-delta": "contact-sync", "picture-get-full": "picture-get", "privacy-get-future": "privacy-get",
+        base = {"contact-sync-part": "contact-sync", "contact-sync-delta": "contact-sync", "picture-get-full": "picture-get", "privacy-get-future": "privacy-get", "pictures-list": "picture-get",
                 "media-upload-duplicate": "media-upload", "media-upload-resume": "media-upload"}.get(name, name)
         K.append({"name": name, "base": base, "owner": owner, "req": req, "res": res})
     add("ping", "YowIqProtocolLayer", lambda: PingIqProtocolEntity(to="s.whatsapp.net"), generic)
@@ -79,6 +79,7 @@ def kinds():
     # the remaining requests of the profiles layer
     add("statuses-get", "YowProfilesProtocolLayer", lambda: PR.GetStatusesIqProtocolEntity([JID, "4912346@s.whatsapp.net"]),
         lambda i: PR.ResultStatusesIqProtocolEntity(i, "s.whatsapp.net", {JID: (b"at work", "1330555420")}).toProtocolTreeNode())
+    add("pictures-list", "YowProfilesProtocolLayer", lambda: PR.ListPicturesIqProtocolEntity(JID, [JID, "4912346@s.whatsapp.net"]), picture)
     add("privacy-set", "YowProfilesProtocolLayer", lambda: PR.SetPrivacyIqProtocolEntity("contacts", ["last", "status"]),
         lambda i: PR.ResultPrivacyIqProtocolEntity({"last": "contacts", "status": "contacts"}).toProtocolTreeNode())
     return K
